@@ -4,7 +4,10 @@ go 1.26.0
 
 require golang.org/x/tools v0.50.0
 
+require github.com/spf13/cast v1.10.0 // indirect
+
 require (
+	github.com/go-spring/stdlib v0.0.5
 	golang.org/x/mod v0.41.0 // indirect
 	golang.org/x/sync v0.23.0 // indirect
 )
